@@ -517,7 +517,19 @@ class Run:
                 self.probe("fault_surfaced_as_" + outcome[1])
             elif success:
                 self.probe("fault_masked_op_succeeded")
-        if listed_fault or extra_fault or outcome[0] in ("spsdk_exc", "other_exc", "unbounded") or status_code == 10004:
+        # a device error status on an otherwise healthy link ends the command cleanly on both sides: the session goes
+        # on without a reopen, and the calls that follow are judged like any other call on a fault-free link
+        clean_refusal = (
+            bool(dev_fired)
+            and set(dev_fired) <= {"dev_error_initial", "dev_error_final"}
+            and not fp.fired
+            and not extra_fault
+            and (outcome[0] == "ret" or (outcome[0] == "spsdk_exc" and outcome[1] == "McuBootCommandError"))
+            and status_code != 10004
+        )
+        if clean_refusal:
+            self.probe("session_continues_after_device_error_status")
+        elif listed_fault or extra_fault or outcome[0] in ("spsdk_exc", "other_exc", "unbounded") or status_code == 10004:
             # the history closes: drain the link, reopen
             try:
                 s.close()
